@@ -3,13 +3,15 @@
 if confirmed, store it as /verif/seeded/<Cxx>-<n>/ (patch.diff, demo/, meta.json)."""
 import json, os, shutil, subprocess, sys
 pid, n = sys.argv[1], sys.argv[2]
-src = "/tmp/seed-out/%s/%s" % (pid, n)
-dst = "/verif/seeded/%s-%s" % (pid, n)
+srcroot = sys.argv[3] if len(sys.argv) > 3 else "/tmp/seed-out"
+prefix = sys.argv[4] if len(sys.argv) > 4 else ""
+src = "%s/%s/%s" % (srcroot, pid, n)
+dst = "/verif/seeded/%s%s-%s" % (prefix, pid, n)
 os.makedirs(dst, exist_ok=True)
 patch = os.path.join(dst, "patch.diff")
 if not os.path.exists(patch):
     shutil.copy(os.path.join(src, "patch.diff"), patch)
-out = subprocess.run(["/verif/confirm_seed.sh", "%s-%s" % (pid, n), patch, os.path.join(src, "demo")], capture_output=True, text=True)
+out = subprocess.run(["/verif/confirm_seed.sh", "%s%s-%s" % (prefix, pid, n), patch, os.path.join(src, "demo")], capture_output=True, text=True)
 print(out.stdout.strip(), out.stderr.strip()[-500:])
 try:
     verdict = json.loads(out.stdout.strip().splitlines()[-1])
